@@ -1158,6 +1158,21 @@ func genC18(o *out, r *Rng) {
 			emit(strings.ReplaceAll(h, "%s", a))
 		}
 	}
+	// error exits that random mutation rarely reaches (found with tools/gocover.py: statements of parser.go never executed by
+	// the generated cases): unterminated brace-form poryswitch cases in all three positions, named format() parameters of the
+	// wrong type, a switch without cases, malformed comparison values, no matching poryswitch case
+	for _, s := range []string{"script S { poryswitch(V) { A { lock", "script S { poryswitch(V) { A { lock ]", "script S { poryswitch(V) { A { lock } B { lock", "script S { poryswitch(V) { A { lock ) } }",
+		"text T { poryswitch(V) { A { \"x\"", "text T { poryswitch(V) { A { \"x\" ] } }", "text T { poryswitch(V) { A { \"x\" \"y\" } } }", "text T { poryswitch(V) { A { format(\"x\") ) } }",
+		"movement M { poryswitch(V) { A { walk_up", "movement M { poryswitch(V) { A { walk_up ) } }", "mart M { poryswitch(V) { A { ITEM_X", "mart M { poryswitch(V) { A { ITEM_X ] } }", "script S { foo(moves(poryswitch(V) { A { walk_up ] } })) }",
+		"text T { format(\"x\", fontId=3) }", "text T { format(\"x\", fontId=abc) }", "text T { format(\"x\", cursorOverlapWidth=\"a\") }", "text T { format(\"x\", cursorOverlapWidth=) }", "text T { format(\"x\", numLines=x) }",
+		"text T { format(\"x\", maxLineLength=\"9\") }", "text T { format(\"x\", bogus=3) }", "text T { format(\"x\", numLines=2 cursorOverlapWidth=1) }", "text T { format(\"x\", numLines=2,, ) }", "text T { format(\"x\", numLines=2, 3) }",
+		"script S { switch (random(2) { case 1: a } }", "script S { switch (random(2) x) { case 1: a } }", "script S { switch (random(2)", "script S { switch (var(X)) { } }", "script S { switch (var(X)) { } lock }", "script S { switch (random(2)) { } }",
+		"script S { if (flag(A) == ) { a } }", "script S { if (flag(A) == 3) { a } }", "script S { if (flag(A) == TRUE x) { a } }", "script S { if (defeated(A) != maybe) { a } }", "script S { if (flag(A) ==", "script S { if (var(X) == value 3) { a } }",
+		"script S { if (var(X) == value) { a } }", "script S { if (var(X) == value(", "script S { if (var(X) == value()) { a } }", "script S { if (var(X) > value(3) { a } }", "script S { if (!flag(A) == TRUE) { a } }", "script S { if (!var(X) == 1) { a } }",
+		"script S { poryswitch(V) { B: lock } }", "script S { poryswitch(V) { B { lock } C: foo } lock }", "script S { poryswitch(Z) { B: lock } }", "text T { poryswitch(V) { B: \"x\" } }", "movement M { poryswitch(V) { B: walk_up } }", "mart M { poryswitch(V) { B: ITEM_X } }",
+		"text T { ascii }", "text T { ascii x }", "script S { foo(ascii) }", "script S { foo(ascii 3) }"} {
+		emit(s)
+	}
 	// lint mode selects other poryswitch cases and formats with no font: the generated names differ from those of the real
 	// compilation; author's statements named like generated labels (D20: found while stating the lint theorem)
 	for i := 0; i < scale(300, 6000); i++ {
